@@ -30,7 +30,7 @@ Print Assumptions C18_refinement.
 (* The same against the STRICT map (absent => not-exist, listing = every
    stored name with the prefix) for every history that contains no deviating
    operation: no listing that should show a name below a directory whose
-   name is not valid UTF-8, no copy of a stored object onto itself. *)
+   name is not valid UTF-8. *)
 Theorem C18_refinement_strict : forall ops, forallb op_ok ops = true ->
   no_deviation [] ops = true ->
   fst (run_fs fs_init ops) = fst (run_spec true [] ops).
@@ -140,14 +140,13 @@ Theorem C18_copy_read : forall m d sr m', reachable m -> components d <> compone
     (read m' (components n) = ROk c2 <-> read m (components n) = ROk c2).
 Proof. exact copy_read. Qed.
 Print Assumptions C18_copy_read.
-(* the deviation: copying an object onto itself empties it (the reader is
-   opened before os.Create truncates the same file) *)
-Theorem C18_copy_self_refuted :
-  forallb op_ok ops_copy_self = true /\
-  fst (run_spec true [] ops_copy_self) = [RW true; RC true; RR (ROk [1; 2; 3])] /\
-  fst (run_fs fs_init ops_copy_self) = [RW true; RC true; RR (ROk [])].
-Proof. exact copy_self_refuted. Qed.
-Print Assumptions C18_copy_self_refuted.
+(* copying an object onto itself keeps its content and the whole tree (fix
+   11cc580); an absent object cannot be copied onto itself either *)
+Theorem C18_copy_self_keeps_content : forall m o, reachable m ->
+  (forall c, read m (components o) = ROk c -> copy m (components o) (components o) = (true, m)) /\
+  (sget (components o) (files m) = None -> copy m (components o) (components o) = (false, m)).
+Proof. exact copy_self_keeps_content. Qed.
+Print Assumptions C18_copy_self_keeps_content.
 
 (* confinement: a name of ordinary components resolves (filepath.Join with
    lexical cleaning) to exactly its components below the bucket directory *)
@@ -175,6 +174,10 @@ Proof. exact chart_name_good. Qed.
 Print Assumptions C18_service_names_inside_chart.
 
 (* Non-vacuity *)
+Example C18_example_copy_self :
+  forallb op_ok ops_copy_self = true /\
+  fst (run_fs fs_init ops_copy_self) = [RW true; RC true; RR (ROk [1; 2; 3]); RC false].
+Proof. exact copy_self_example. Qed.
 Example C18_example_read_colliding :
   forallb op_ok ops_read_dir = true /\
   fst (run_fs fs_init ops_read_dir) = [RW true; RR RNotExist; RW true; RR RNotExist].
